@@ -183,6 +183,8 @@ def read_template(unit):
                     pass
                 elif d == "serves":
                     meta["serves"] += toks[1:]
+                elif d == "rlimit":
+                    meta["rlimit"] = float(toks[1])
                 elif d == "include":
                     include(os.path.join(SPEC, toks[1]), depth + 1)
                 elif d == "item":
@@ -481,7 +483,7 @@ def assemble(unit, canary=False, mutant=None, check_fp=True):
             gt = " ".join(strip_comment(t).strip() for _, t in g["lines"]).strip()
             if not re.match(r"^(proof\s*\{|assert\b|broadcast use\b|let ghost\b)", gt):
                 raise Undecided(f"{it.tpl}:{g['line']}: ghost insertion must be a proof block / assert / broadcast use / let ghost")
-            anc = g["anchor"].encode()
+            anc = g["anchor"].replace("\\n", "\n").encode()
             cnt = body.count(anc)
             if cnt != 1:
                 raise Undecided(f"lost-anchor: {it.path}: ghost anchor `{g['anchor']}` occurs {cnt} times")
@@ -730,6 +732,8 @@ def verify_unit(unit, seed=0, rlimit=None, do_canary=True, mutant=None):
     t0 = time.time()
     A = assemble(unit, mutant=mutant)
     path = write_generated(A, "" if not mutant else "__mut_" + str(mutant.get("n", 0)))
+    if A.meta.get("rlimit"):
+        rlimit = max(rlimit or 0, A.meta["rlimit"])
     res = run_verus(path, seed=seed, rlimit=rlimit)
     an = analyse(A, res)
     r = {"unit": unit, "A": A, "path": path, "res": res, "an": an, "canary": None}
